@@ -591,6 +591,14 @@ func genDiffCase(t *rapid.T) diffCase {
 		b = genText(t, o)
 	case 2:
 		a, b = genUTF8Pair(t)
+	case 3:
+		// the same lines with CRLF line ends on one side and LF on the other (a stored HTTP dump / CSV against a writer
+		// that lost its carriage returns), optionally with one more edit
+		b = strings.ReplaceAll(a, "\r", "")
+		a = strings.ReplaceAll(b, "\n", "\r\n")
+		if rapid.Bool().Draw(t, "crlfplus") {
+			b = mutateText(t, b, o)
+		}
 	case 1:
 		b = a
 	default:
